@@ -3,8 +3,6 @@
 package gobinlog
 
 import (
-	"context"
-
 	"github.com/Breeze0806/gobinlog/internal/vspec"
 	"github.com/Breeze0806/gobinlog/replication"
 )
@@ -64,37 +62,3 @@ func vc_getValuesFromRow_ensures_shape(tc *tableCache, rs *replication.Rows, row
 	return err == nil && out != nil && len(out.Columns) == rs.DataColumns.Count()
 }
 
-// ---- parseEvents: C04 "the position returned is the boundary after the last accepted transaction" ----
-
-// ghost: boundary after the last transaction the handler accepted (or the initial / rotated position)
-var vcAcc Position
-
-//verif:hook loop-entry parseEvents 1
-func vc_hook_loopentry_Streamer_parseEvents_1(pos Position) {
-	vcAcc = pos
-}
-
-//verif:hook callback-ok Streamer.sendTransaction
-func vc_hook_callback_ok_sendTransaction(tran *Transaction) {
-	vcAcc = tran.NextPosition
-}
-
-// end of an iteration: a rotation (format known, event not an XID) moves the boundary to its target
-//
-//verif:hook loop-step parseEvents 1
-func vc_hook_loopstep_Streamer_parseEvents_1(ev replication.BinlogEvent, format replication.BinlogFormat) {
-	if !format.IsZero() && !ev.IsFormatDescription() && !ev.IsXID() && ev.IsRotate() {
-		fn, off, err := ev.Rotate(format)
-		if err == nil {
-			vcAcc = Position{Filename: fn, Offset: off}
-		}
-	}
-}
-
-func vc_Streamer_parseEvents_loop1_inv(pos Position) bool {
-	return pos == vcAcc
-}
-
-func vc_Streamer_parseEvents_ensures_resume(s *Streamer, ctx context.Context, events <-chan replication.BinlogEvent, out Position, err *Error) bool {
-	return out == vcAcc
-}
